@@ -4,6 +4,7 @@ package main
 // assumption validations. They are labelled "bounded" and never counted as proved.
 
 import (
+	"encoding/json"
 	"fmt"
 	"go/ast"
 	"go/parser"
@@ -210,6 +211,12 @@ func (p *Prog) extraObligations(o checkOpts) (obs []*Obligation, notes []string,
 	// bounded stand-ins executed on the real code through the replay harness
 	for _, r := range p.spec.Raw["harness"] {
 		text := r.Text
+		// harness NAME PKG KIND key=value... serves IDS : DESCRIPTION
+		desc := ""
+		if k := strings.Index(text, " : "); k >= 0 {
+			desc = strings.TrimSpace(text[k+3:])
+			text = text[:k]
+		}
 		var serves []string
 		if k := strings.Index(text, " serves "); k >= 0 {
 			serves = strings.Fields(text[k+8:])
@@ -217,12 +224,6 @@ func (p *Prog) extraObligations(o checkOpts) (obs []*Obligation, notes []string,
 		}
 		if !servesProp(serves, o.id) {
 			continue
-		}
-		// harness NAME PKG KIND key=value... : DESCRIPTION
-		desc := ""
-		if k := strings.Index(text, " : "); k >= 0 {
-			desc = strings.TrimSpace(text[k+3:])
-			text = text[:k]
 		}
 		f := strings.Fields(text)
 		if len(f) < 3 {
@@ -232,8 +233,45 @@ func (p *Prog) extraObligations(o checkOpts) (obs []*Obligation, notes []string,
 		args := map[string]string{}
 		for _, kv := range f[3:] {
 			if k := strings.Index(kv, "="); k > 0 {
-				args[kv[:k]] = kv[k+1:]
+				// \s and \t stand for a space and a tab inside a value
+				args[kv[:k]] = strings.NewReplacer(`\s`, " ", `\t`, "\t").Replace(kv[k+1:])
 			}
+		}
+		if ln := args["lang"]; ln != "" {
+			// the job works on the members of a spec language: all strings over the alphabet up to
+			// maxlen that the language's automaton accepts, enumerated here
+			le, err := p.lemmaEnv([]ast.Expr{ast.NewIdent(ln)})
+			if err != nil {
+				errs = append(errs, err.Error())
+				continue
+			}
+			d, err := le.dfa(ast.NewIdent(ln))
+			if err != nil {
+				errs = append(errs, err.Error())
+				continue
+			}
+			maxlen := 0
+			fmt.Sscanf(args["maxlen"], "%d", &maxlen)
+			live := liveStates(d)
+			var members []string
+			var rec func(prefix string, q int)
+			rec = func(prefix string, q int) {
+				if d.acc[q] {
+					members = append(members, prefix)
+				}
+				if len(prefix) == maxlen {
+					return
+				}
+				for _, ru := range args["alphabet"] {
+					nq := int(d.delta[q][le.al.classOf(ru)])
+					if live[nq] {
+						rec(prefix+string(ru), nq)
+					}
+				}
+			}
+			rec("", d.init)
+			mj, _ := json.Marshal(members)
+			args["strings"] = string(mj)
 		}
 		rs, err := p.runHarness(o, f[1], []replayJob{{ID: f[0], Kind: f[2], Args: args}})
 		ok, detail := false, ""
@@ -245,6 +283,7 @@ func (p *Prog) extraObligations(o checkOpts) (obs []*Obligation, notes []string,
 		obs = append(obs, preSolved("bounded.harness."+f[0], "bounded", fmt.Sprintf("%s:%d", shortSpec(r.File), r.Line), "BOUNDED stand-in (real code, exhaustive enumeration): "+desc+" ["+detail+"]", ok, detail, serves))
 		notes = append(notes, "bounded harness "+f[0]+": "+desc+" ["+detail+"]")
 	}
+	_ = json.Marshal
 	// lemmas about package-level tables of the repository: "tablelemma PKG NAME: EXPR"
 	for _, r := range p.spec.Raw["tablelemma"] {
 		text := r.Text
@@ -360,4 +399,29 @@ func (p *Prog) validateCodeRegexes(o checkOpts) (obs []*Obligation, notes []stri
 	}
 	notes = append(notes, fmt.Sprintf("regex->DFA translation validated differentially for %d patterns", len(seen)))
 	return
+}
+
+// liveStates marks the states from which an accepting state can be reached.
+func liveStates(d *DFA) []bool {
+	n := d.n()
+	live := make([]bool, n)
+	for q := 0; q < n; q++ {
+		live[q] = d.acc[q]
+	}
+	for changed := true; changed; {
+		changed = false
+		for q := 0; q < n; q++ {
+			if live[q] {
+				continue
+			}
+			for _, t := range d.delta[q] {
+				if live[t] {
+					live[q] = true
+					changed = true
+					break
+				}
+			}
+		}
+	}
+	return live
 }
